@@ -301,6 +301,7 @@ func c02Scenario(g c01Gen, dotu bool) Scenario {
 			sufA: []byte{0, 0, 0, 0, 0, 0, 0, 0, 0, 0, 0, 0, 0, 0, 0, 0}, sufB: bytes.Repeat([]byte{0xFF}, 16)}
 		th := c.Thorough()
 		distinct := map[string]bool{}
+		countSweepDone := map[byte]bool{}
 		try := func(b []byte) {
 			k := string(b)
 			if !distinct[k] {
@@ -350,6 +351,31 @@ func c02Scenario(g c01Gen, dotu bool) Scenario {
 					t := append([]byte{}, base...)
 					t[off] = byte(v)
 					try(t)
+				}
+			}
+			// 4a. the 16-bit element counts (Twalk nwname, Rwalk nwqid): every one of the 65536
+			// values - a check computed in 16-bit arithmetic is wrong for isolated values only
+			if cntOff := map[byte]int{wire.Twalk: 15, wire.Rwalk: 7}[base[4]]; cntOff > 0 && cntOff+2 <= L && L <= 80 {
+				for v := 0; v < 65536; v++ {
+					t := append([]byte{}, base...)
+					binary.LittleEndian.PutUint16(t[cntOff:], uint16(v))
+					try(t)
+				}
+				// ... and with every length 0..30 of what follows the count (size field adjusted),
+				// once per packet kind
+				if !countSweepDone[base[4]] {
+					countSweepDone[base[4]] = true
+					for n := 0; n <= 30; n++ {
+						t := append([]byte{}, base[:cntOff+2]...)
+						for i := 0; i < n; i++ {
+							t = append(t, byte(i+1))
+						}
+						binary.LittleEndian.PutUint32(t, uint32(len(t)))
+						for v := 0; v < 65536; v++ {
+							binary.LittleEndian.PutUint16(t[cntOff:], uint16(v))
+							try(append([]byte{}, t...))
+						}
+					}
 				}
 			}
 			// 4. every offset taken as a 16/32-bit length or count field
@@ -504,7 +530,7 @@ func c02Scenarios(tier string) []Scenario {
 func init() {
 	register(&Property{ID: "C02", Level: "exploration",
 		Technique: "bounded-exhaustive enumeration of packet mutations (truncations, declared sizes, byte substitutions, length-field overwrites, all tiny frames)",
-		Rule:      "for up to 5 canonical packets per type and dialect: every truncation (with and without adjusted size field), every declared size 0..len+8 and extremes, every byte value at every offset (packets <= 96 bytes; boundary values otherwise), 11 u16 and 11 u32 values written at every offset; every frame of header + <=3 body bytes over {00,01,02,7f,ff} for all 256 type bytes; stat records likewise; each input decoded twice with different bytes after the declared size. distinct = distinct byte strings",
+		Rule:      "for up to 5 canonical packets per type and dialect: every truncation (with and without adjusted size field), every declared size 0..len+8 and extremes, every byte value at every offset (packets <= 96 bytes; boundary values otherwise), 11 u16 and 11 u32 values written at every offset, all 65536 values of the Twalk / Rwalk element counts; every frame of header + <=3 body bytes over {00,01,02,7f,ff} for all 256 type bytes; stat records likewise; each input decoded twice with different bytes after the declared size. distinct = distinct byte strings",
 		Assumptions: []string{"allocation is measured with runtime/metrics and confirmed with runtime.MemStats when above 8 KiB + 16*len(input)"},
 		Scenarios:   c02Scenarios, QuickS: 100, ThoroughS: 900})
 }
